@@ -289,6 +289,15 @@ func (ds *describer) d(v ssa.Value, depth int) string {
 	case *ssa.UnOp:
 		switch x.Op {
 		case token.MUL:
+			// a field that is only ever set when its object is built, read from the object this
+			// function built: the value it was built with
+			if fa, ok := x.X.(*ssa.FieldAddr); ok {
+				if a, ok := deref(fa.X).(*ssa.Alloc); ok {
+					if bv := builtFieldValue(a, fa.Field); bv != nil && depth < 10 {
+						return ds.d(bv, depth+1)
+					}
+				}
+			}
 			inner := ds.d(x.X, depth+1)
 			if strings.HasPrefix(inner, "&") {
 				return inner[1:]
@@ -976,4 +985,123 @@ func deref(v ssa.Value) ssa.Value {
 func fieldName(fa *ssa.FieldAddr) string {
 	t := fa.X.Type().Underlying().(*types.Pointer).Elem().Underlying().(*types.Struct)
 	return t.Field(fa.Field).Name()
+}
+
+// ---- fields that are only ever set when their object is built ------------------------------
+
+type fieldKey struct {
+	t   types.Type // the struct type (named or not), as the FieldAddr's base element type
+	idx int
+}
+
+var initOnlyMemo = map[string]bool{}
+var allModuleFuncs []*ssa.Function
+var allModuleFuncsProg *ssa.Program
+
+func moduleFuncsOf(prog *ssa.Program) []*ssa.Function {
+	if allModuleFuncsProg == prog {
+		return allModuleFuncs
+	}
+	allModuleFuncsProg, allModuleFuncs = prog, nil
+	for _, p := range prog.AllPackages() {
+		if strings.HasPrefix(p.Pkg.Path(), modPath) {
+			allModuleFuncs = append(allModuleFuncs, pkgAllFuncs(p)...)
+		}
+	}
+	return allModuleFuncs
+}
+
+// initOnlyField: in the whole module, field idx of struct type t is stored only into objects
+// the storing function has just allocated itself (composite literals, new(T) followed by
+// assignments), and its address is never taken for anything but loads and stores. An object's
+// field of that kind keeps the value its builder gave it.
+func initOnlyField(prog *ssa.Program, t types.Type, idx int) bool {
+	key := t.String() + "#" + fmt.Sprint(idx)
+	if v, ok := initOnlyMemo[key]; ok {
+		return v
+	}
+	res := true
+	for _, f := range moduleFuncsOf(prog) {
+		for _, b := range f.Blocks {
+			for _, in := range b.Instrs {
+				fa, ok := in.(*ssa.FieldAddr)
+				if !ok || fa.Field != idx {
+					continue
+				}
+				pt, ok := fa.X.Type().Underlying().(*types.Pointer)
+				if !ok || !types.Identical(pt.Elem(), t) {
+					continue
+				}
+				for _, r := range referrers(fa) {
+					switch u := r.(type) {
+					case *ssa.UnOp:
+						if u.Op != token.MUL {
+							res = false
+						}
+					case *ssa.DebugRef:
+					case *ssa.Store:
+						if u.Addr != ssa.Value(fa) {
+							res = false // the field's address is stored somewhere
+						} else if _, fresh := fa.X.(*ssa.Alloc); !fresh {
+							res = false // an existing object is modified
+						}
+					default:
+						res = false
+					}
+				}
+			}
+		}
+	}
+	initOnlyMemo[key] = res
+	return res
+}
+
+// builtFieldValue: the value field idx of the object allocated by a was built with, when the
+// field is init-only (see above), a stores it exactly once, and a is not handed to a decoder
+// that could fill it by reflection.
+func builtFieldValue(a *ssa.Alloc, idx int) ssa.Value {
+	pt, ok := a.Type().Underlying().(*types.Pointer)
+	if !ok {
+		return nil
+	}
+	if _, isStruct := pt.Elem().Underlying().(*types.Struct); !isStruct {
+		return nil
+	}
+	if a.Parent() == nil || a.Parent().Prog == nil || !initOnlyField(a.Parent().Prog, pt.Elem(), idx) {
+		return nil
+	}
+	var val ssa.Value
+	n := 0
+	for _, r := range referrers(a) {
+		switch u := r.(type) {
+		case *ssa.FieldAddr:
+			if u.Field != idx {
+				continue
+			}
+			for _, r2 := range referrers(u) {
+				if s, ok := r2.(*ssa.Store); ok && s.Addr == ssa.Value(u) {
+					n++
+					val = s.Val
+				}
+			}
+		case ssa.CallInstruction:
+			cn := calleeName(u.Common())
+			if strings.Contains(cn, "Unmarshal") || strings.Contains(cn, "Decode") {
+				return nil
+			}
+		case *ssa.MakeInterface:
+			for _, r2 := range referrers(u) {
+				if ci, ok := r2.(ssa.CallInstruction); ok {
+					cn := calleeName(ci.Common())
+					if strings.Contains(cn, "Unmarshal") || strings.Contains(cn, "Decode") {
+						return nil
+					}
+				}
+			}
+		}
+	}
+	if n != 1 {
+		return nil
+	}
+	return val
 }
